@@ -23,13 +23,12 @@ def GoVal.asStruct : GoVal → Option GoVal
 
 /-- Go zero value of the struct field an IR field describes (used for the empty oneof wrapper) -/
 def zeroGoOf (f : FieldInfo) : GoVal :=
-  if f.isNullable then .ptr none
-  else match f.kind with
-    | .primitive => .sc (zeroOfRep f.rep)
-    | .object => .struct []
-    | .primitiveList | .objectList => .slice none
-    | .primitiveMap | .objectMap => .map none
-    | .custom => .sc (zeroOfRep f.rep)
+  match f.kind with
+  | .primitive => if f.isNullable then .ptr none else .sc (zeroOfRep f.rep)
+  | .object => if f.isNullable then .ptr none else .struct []
+  | .primitiveList | .objectList => .slice none
+  | .primitiveMap | .objectMap => .map none
+  | .custom => if f.isRepeated then .slice none else .sc (zeroOfRep f.rep)
 
 /-- `obj, ok := obj.<OneOf>.(*Wrapper); if !ok { obj = &Wrapper{} }` -/
 def oneOfShadow (f : FieldInfo) (obj : GoVal) : GoVal :=
@@ -47,14 +46,16 @@ def parentIsNil (f : FieldInfo) (obj : GoVal) : Bool :=
   | none => true
   | _ => false
 
-/-- evaluate `obj.<Name>`; through a nil embedded pointer this panics -/
+/-- evaluate the field: `obj.<Name>`, or for a child of a nullable embedded message
+`var e T; if obj.<Parent> != nil { e = obj.<Name> }` (message, list, map and custom children; scalar children are
+guarded by `obj.<Parent> == nil` tests before they are read) -/
 def readField (f : FieldInfo) (obj : GoVal) : Outcome GoVal :=
   if f.parentIsOptionalEmbed then
     match obj.field? f.parentIsOptionalEmbedFieldName with
-    | some (.ptr none) => .panic "nil-deref"
+    | some (.ptr none) => .ok (zeroGoOf f)
     | some (.ptr (some s)) =>
       .ok ((s.field? f.name).getD (zeroGoOf f))
-    | none => .panic "nil-deref"           -- absent = zero value = nil pointer
+    | none => .ok (zeroGoOf f)           -- absent = zero value = nil pointer
     | _ => .stuck ("embedded parent " ++ f.parentIsOptionalEmbedFieldName ++ " is not a pointer")
   else
     -- absent = zero value (also: the empty oneof wrapper)
